@@ -147,10 +147,77 @@ def lay_suffix(lay):
     return "@%d,%d,%d,%d" % tuple(lay) if lay else ""
 
 
+_X86_ENUM_IDS = None
+
+
+def x86_enum_ids():
+    """mnemonic -> instruction id, read from the `enum Id` of asmjit/x86/x86globals.h (enumerator position = id, mnemonic from
+    the generated `Instruction 'name'` comment). This is the C++ API a user writes (x86::Inst::kIdCrc32) and it does not pass
+    through the packed name tables that inst_id_to_string()/string_to_inst_id() decode: an instruction is handed to the
+    driver by this id, so a mnemonic the name tables print wrongly (or no longer resolve) is still emitted and its text
+    judged against the case's name."""
+    global _X86_ENUM_IDS
+    if _X86_ENUM_IDS is None:
+        ids, n, on = {}, 0, False
+        for line in open(os.path.join(common.REPO, "asmjit", "x86", "x86globals.h")):
+            if "${InstId:Begin}" in line:
+                on = True
+                continue
+            if not on:
+                continue
+            m = re.match(r"\s*(_?kId\w+)\s*(=\s*0\s*)?,?\s*(//!<\s*Instruction '([^']+)')?", line)
+            if not m or not m.group(1):
+                continue
+            if m.group(1) == "_kIdCount":
+                break
+            if m.group(4):
+                ids.setdefault(m.group(4), n)
+            n += 1
+        _X86_ENUM_IDS = ids
+    return _X86_ENUM_IDS
+
+
+
+_A64_ENUM_IDS = None
+
+
+def a64_line_by_id(line):
+    """AArch64 twin of x86_enum_ids(): the mnemonic at the head of a drv_emit_a64-style line is replaced by `#<id>` taken from the
+    `enum Id` of asmjit/arm/a64globals.h (the SIMD id of a two-id name when the line has a vector operand, like the driver's
+    own rule), so that the instruction does not have to pass string_to_inst_id()."""
+    global _A64_ENUM_IDS
+    if _A64_ENUM_IDS is None:
+        ids, n, on = {}, 0, False
+        for l in open(os.path.join(common.REPO, "asmjit", "arm", "a64globals.h")):
+            if "${InstId:Begin}" in l:
+                on = True
+                continue
+            if not on:
+                continue
+            m = re.match(r"\s*(_?kId\w+)\s*(=\s*0\s*)?,?\s*(//!<\s*Instruction '([^']*)')?", l)
+            if not m or not m.group(1):
+                continue
+            if m.group(1) == "_kIdCount":
+                break
+            if m.group(4):
+                ids.setdefault(m.group(4), []).append(n)
+            n += 1
+        _A64_ENUM_IDS = ids
+    head, _, rest = line.partition(" ")
+    base, dot, cc = head.partition(".")
+    got = _A64_ENUM_IDS.get(base)
+    if not got or base.startswith("#"):
+        return line
+    iid = got[-1] if " V:" in " " + rest else got[0]
+    return "#%d%s%s %s" % (iid, dot, cc, rest)
+
 def driver_line(c, kind, flags):
     ex = "-" if not c["extra"] else "%s:%s" % tuple(c["extra"])
     kind = kind + lay_suffix(c.get("_lay"))
-    return "%d %s %s %s %s %x %s %d %s" % (c["id"], kind, ",".join("%x" % f for f in flags), c["arch"], c["name"], c["opts"], ex,
+    name = c["name"]
+    if c["arch"] in ("x86", "x64") and name in x86_enum_ids():
+        name = "#%d" % x86_enum_ids()[name]
+    return "%d %s %s %s %s %x %s %d %s" % (c["id"], kind, ",".join("%x" % f for f in flags), c["arch"], name, c["opts"], ex,
                                            len(c["ops"]), " ".join(op_token(o) for o in c["ops"]))
 
 
@@ -472,7 +539,7 @@ def a64_worker(arg):
         c["_ff"] = flag_sets_for(frng, tier)
         c["_lay"] = layout_for(i)
         c["_id"] = i
-        lines.append("%d asm%s %s a64 %s" % (i, lay_suffix(c["_lay"]), ",".join("%x" % f for f in c["_ff"]), c["line"]))
+        lines.append("%d asm%s %s a64 %s" % (i, lay_suffix(c["_lay"]), ",".join("%x" % f for f in c["_ff"]), a64_line_by_id(c["line"])))
     if not lines:
         return st.export()
     rc, out, err = _run_driver(exe, lines)
